@@ -231,6 +231,13 @@ def build(recipe):
         lost = {"A": ("N1", "C6"), "G": ("N3", "C2"), "C": ("N3", "C4")}
         return _rebuild(base, keep_atom=lambda ri, ai, a: not (
             ri in drop and a.name in lost.get(base.residues[ri].one_letter_name.upper(), ()))), recipe.get("ann_model")
+    if v == "twomodel0":
+        # as "twomodel", the models numbered 0 and 1 (0 is a model number too); model 0 is analysed
+        from rnapolis.tertiary import Structure3D
+        nrng = np.random.default_rng(rng.getrandbits(32))
+        m1 = _rebuild(base, model=0)
+        m2 = _rebuild(base, lambda X: X + nrng.normal(0.0, 0.15, X.shape) + np.array([1.5, 0.0, 0.0]), model=1)
+        return Structure3D(list(m1.residues) + list(m2.residues)), 0
     if v == "twomodel":
         # the structure as model 1 plus a jittered, shifted copy as model 2; model p is analysed
         from rnapolis.tertiary import Structure3D
@@ -522,6 +529,7 @@ def recipes(tier):
             out.append({"file": f, "variant": "noring", "param": 0.3, "seed": 1})
         out.append({"file": files[2], "variant": "twomodel", "param": 1})
         out.append({"file": files[2], "variant": "twomodel", "param": 2})
+        out.append({"file": files[2], "variant": "twomodel0", "param": 0})
         out.append({"file": "2HY9.cif", "read_model": 2, "variant": "orig"})
     else:
         for f in corpus_files():
@@ -552,6 +560,7 @@ def recipes(tier):
                 out.append({"file": f, "variant": "squash", "param": p})
             out.append({"file": f, "variant": "twomodel", "param": 1})
             out.append({"file": f, "variant": "twomodel", "param": 2})
+            out.append({"file": f, "variant": "twomodel0", "param": 0})
     for r in out:
         r["id"] = "|".join(str(r.get(k, "")) for k in ("file", "read_model", "variant", "param", "seed"))
     return out
@@ -660,7 +669,7 @@ def record(recipe, family):
     M = measurer.measure(structure, K, ann_model)
     P = Projection(structure, ann_model)
     P.mark(M)
-    case = {"id": recipe["id"], "kind": "ann", "recipe": recipe, "model": 0 if ann_model is None else int(ann_model),
+    case = {"id": recipe["id"], "kind": "ann", "recipe": recipe, "model": -1 if ann_model is None else int(ann_model),
             "err": err, "res": P.res, "split": split}
     if family == "C04":
         _project_stacking(case, M, P, bi)
